@@ -141,6 +141,8 @@ var schemas = map[string][]field{
 	"AFTOperationB": {{"NetworkInstance", "NetworkInstance", kStr}, {"Entry", "Entry", kind{k: "oneof", s: "EntryB"}}, {"ElectionId", "ElectionId", kPtr("Uint128")}},
 	"AFTEntryB":     {{"NetworkInstance", "NetworkInstance", kStr}, {"Entry", "Entry", kind{k: "oneof", s: "EntryB"}}},
 	"FlushRequestB": {{"Election", "Election", kind{k: "oneof", s: "FlushElec"}}, {"NetworkInstance", "NetworkInstance", kind{k: "oneof", s: "FlushNI"}}},
+	"ConvTok":           {{"Tag", "Tag", kNat}},
+	"ReconOpX":          {{"Id", "Id", kNat}, {"NetworkInstance", "NetworkInstance", kStr}, {"Op", "Op", kEnum}, {"Entry", "Entry", kind{k: "oneof", s: "ReconEntryX"}}},
 	"gRIBIGet":          {{"pb", "pb", kPtrNN("GetRequestG")}},
 	"gRIBIFlush":        {{"pb", "pb", kPtrNN("FlushRequestB")}},
 	"ModifyRequestE":    {{"ElectionId", "ElectionId", kPtr("Uint128")}},
@@ -223,6 +225,7 @@ var leanStruct = map[string]string{
 	"AFTResultList": "(List AFTResultC)", "Bool": "Bool", "pendingQueue": "PendingQueue", "pendingEntry": "PendingEntry", "RibOpResult": "RibOpResult", "OrigTop": "OrigTop", "OrigNHGMember": "OrigNHGMember", "OrigNHG": "OrigNHG", "KeyRIB": "KeyRIB", "GPrefix": "GPrefix", "GLabel": "GLabel", "GId": "GId", "GIndex": "GIndex", "GAFTEntry": "GAFTEntry", "cache": "GetCache", "GetResponseG": "GetResponseG", "ReconEntS": "ReconEnt", "ReconEntN": "ReconEnt", "ReconAfts": "ReconAfts", "ReconNI": "ReconNI", "ReconOp": "ReconOp", "TblEntry": "TblEntry", "NewElem": "NewElem", "NewAfts": "NewAfts", "NewRIB": "NewRIB", "StringValue": "StringValue", "UintValue": "UintValue", "NewTop": "NewTop", "NewNHGMember": "NewNHGMember", "NewNHG": "NewNHG", "FlNHG": "FlNHG", "HolderG": "HolderG", "ErrView": "ErrView", "ClientErrG": "ClientErrG", "GStatus": "GStatus", "StrBox": "String", "ErrOptG": "ErrOptG", "UintBox": "Nat", "FlushErr": "FlushErr", "Nat": "Nat", "Status": "Status",
 	"BytesValue": "BytesValue", "TopEntryB": "TopEntryB", "Ipv4KeyB": "Ipv4KeyB", "Ipv6KeyB": "Ipv6KeyB", "PoppedU": "PoppedU", "LabelEntryB": "LabelEntryB", "LabelKeyB": "LabelKeyB", "NhgNhB": "NhgNhB", "NhgNhKeyB": "NhgNhKeyB", "NhgPayloadB": "NhgPayloadB", "NhgKeyB": "NhgKeyB", "AFTOperationB": "AFTOperationB", "AFTEntryB": "AFTEntryB", "FlushRequestB": "FlushRequestB",
 	"BoolValue": "BoolValue", "IfRefB": "IfRefB", "IpInIpB": "IpInIpB", "PushedU": "PushedU", "NhPayloadB": "NhPayloadB", "NhKeyB": "NhKeyB", "nextHopEntry": "NhBuilder",
+	"ConvTok": "ConvTok", "ReconOpX": "ReconOpX",
 	"ModifyRequestE": "ModifyRequestE", "ReqTok": "ReqTok", "gRIBIGet": "GetBuilder", "gRIBIFlush": "FlushBuilder",
 	"ipv4Entry": "Ipv4Builder", "ipv6Entry": "Ipv6Builder", "labelEntry": "LabelBuilder", "nextHopGroupEntry": "NhgBuilder",
 }
@@ -358,6 +361,13 @@ type oneofCase struct {
 var oneofs = map[string][]oneofCase{
 	"FlushNI": {{"*spb.FlushRequest_All", "FlushNI.All", nil}, {"*spb.FlushRequest_Name", "FlushNI.Name", []field{{"Name", "Name", kStr}}}},
 	"GetNI":   {{"*spb.GetRequest_All", "GetNI.All", nil}, {"*spb.GetRequest_Name", "GetNI.Name", []field{{"Name", "Name", kStr}}}},
+	"ReconEntryX": {
+		{"*spb.AFTOperation_Ipv4", "ReconEntryX.Ipv4", []field{{"Ipv4", "Ipv4", kPtr("ConvTok")}}},
+		{"*spb.AFTOperation_Ipv6", "ReconEntryX.Ipv6", []field{{"Ipv6", "Ipv6", kPtr("ConvTok")}}},
+		{"*spb.AFTOperation_Mpls", "ReconEntryX.Mpls", []field{{"Mpls", "Mpls", kPtr("ConvTok")}}},
+		{"*spb.AFTOperation_NextHopGroup", "ReconEntryX.NextHopGroup", []field{{"NextHopGroup", "NextHopGroup", kPtr("ConvTok")}}},
+		{"*spb.AFTOperation_NextHop", "ReconEntryX.NextHop", []field{{"NextHop", "NextHop", kPtr("ConvTok")}}},
+	},
 	"LabelU": {{"*aftpb.Afts_LabelEntryKey_LabelUint64", "LabelU.U64", []field{{"LabelUint64", "LabelUint64", kNat}}}},
 	"FlushElec": {{"*spb.FlushRequest_Id", "FlushElec.Id", []field{{"Id", "Id", kPtr("Uint128")}}}, {"*spb.FlushRequest_Override", "FlushElec.Override", nil}},
 	// the entry oneof of spb.AFTOperation and of spb.AFTEntry as the fluent builders fill it
